@@ -80,6 +80,7 @@ func vfNewGateEnv(kind string, proto int, coalesce bool) (*vfGateEnv, error) {
 	}
 	e.conn = conn
 	e.sc.Bind(conn)
+	e.sc.Bind(conn.w)
 	dc := d.DriverConns[desc.Addr]
 	e.mc = dc[len(dc)-1]
 	e.connID = e.tr.ObjID(conn)
@@ -265,6 +266,28 @@ var vfGateScenarios = map[string]func(e *vfGateEnv) string{
 		gf.Release()
 		return ""
 	},
+	// C07 / C01: a request is cancelled while its frame is queued in the write coalescer; whatever the
+	// writer reports must match the byte stream, and the stream id must not be reused while an answer
+	// to that frame can still arrive
+	"cancel_while_queued": func(e *vfGateEnv) string {
+		if _, ok := e.conn.w.(*writeCoalescer); !ok {
+			return ""
+		}
+		gq := e.sc.gates.Arm("q_enq", 0)
+		id, _, cancel := e.start("prompt", true)
+		_ = id
+		if !gq.AwaitReached(vfGateWait) {
+			return "q_enq not reached"
+		}
+		cancel()
+		time.Sleep(2 * time.Millisecond) // several coalescing windows
+		gq.Release()
+		time.Sleep(5 * time.Millisecond)
+		for i := 0; i < 3; i++ {
+			e.start("prompt", false)
+		}
+		return ""
+	},
 	// C07: after a torn frame, another caller tries to write before the failing caller closes
 	"write_after_partial": func(e *vfGateEnv) string {
 		e.mc.SetFault(&vfWriteFault{FailAtByte: int64(len(e.mc.Written())) + 7, StallAtByte: -1})
@@ -292,7 +315,7 @@ func TestVfConnGates(t *testing.T) {
 	if vfOutDir() == "" {
 		t.Skip("VF_OUT not set")
 	}
-	names := []string{"closer_before_select", "closer_vs_giveup", "recv_vs_giveup", "late_answer_after_timeout", "two_closers", "write_after_partial"}
+	names := []string{"closer_before_select", "closer_vs_giveup", "recv_vs_giveup", "late_answer_after_timeout", "two_closers", "write_after_partial", "cancel_while_queued"}
 	k := 0
 	var inconclusive []string
 	for _, name := range names {
